@@ -25,7 +25,8 @@ RULE = ("circuits of Not/Xor/And/Or/identity blocks (by object, by name, '_not_N
 ASSUMPTIONS = [
     "block functions are the library's Not/And/Or/Xor (identity = And/Or with one input); values are bools and small ints",
     "the documented margin is 3 evaluations per block (simulator._MAX_EVALS_PER_BLOCK), all blocks of the circuit counted",
-    "a run-away (more than 30 x limit evaluations without pause or error) is cut by the harness and reported as a violation",
+    "a run-away (more than 30 x limit evaluations without pause or error, or 20 s of wall time in a synchronous loop "
+    "of the simulator) is cut by the harness and reported as a violation",
 ]
 EXHAUSTIVE = {'quick': False, 'thorough': False}
 
@@ -473,7 +474,8 @@ def run_impl(scn):
             pass
 
     try:
-        vtime.run(main)
+        with simcommon.watchdog():
+            vtime.run(main)
     finally:
         simcommon._EVAL_LOG = None
         _GUARD['max'] = None
